@@ -114,6 +114,42 @@ def run(F, rep):
                     rep.ob("C05-T1", "exactly one token pushed per iteration in %s" % f.key, len(pushes) == 1 and dom_ok,
                            detail="%d push call(s) in loop body; push dominates the back edge: %s" % (len(pushes), dom_ok),
                            site=site_of(f, t), key="C05-T1 | %s | one token per iteration @%s" % (f.key, _tok_ctx(item)))
+    # the same round may be queued through a bulk operation of the queue (`for _ in 0..count { heap.push(item.clone() /size 0/) }`):
+    # then the count argument takes the place of the loop bound
+    for f in F.funcs.values():
+        if not f.key.startswith(sqc):
+            continue
+        ex = None
+        for bi, t in f.calls():
+            if t.get("indirect") or not t["callee"].startswith(QUEUE) or t["callee"] == QUEUE + "push":
+                continue
+            q = F.funcs.get(t["callee"])
+            if q is None:
+                continue
+            blk = _bulk_shape(F, q)
+            if blk is None:
+                continue
+            ex = ex or Exprs(f)
+            qn = {nm: l for l, nm in q.arg_names().items()}
+            if blk["item"] not in qn or blk["count"] not in qn:
+                continue
+            item = ex.operand(t["args"][qn[blk["item"]] - 1])
+            count = ex.operand(t["args"][qn[blk["count"]] - 1])
+            if isinstance(item, tuple) and item[0] == "var":
+                from mirutil import _single_source
+                item = _single_source(f, ex, item[1])
+            is_tok = isinstance(item, tuple) and item[0] == "agg" and dict(item[2]).get("is_sync_token") == ("const", 1)
+            if not is_tok:
+                continue
+            token_loops += 1
+            rep.ob("C05-T1", "sync-token loop bound in %s" % f.key, num_threads_read(count),
+                   detail="bulk insert %s(.., count = %s)" % (q.key.rsplit("::", 1)[-1], fmt(count)), site=site_of(f, t),
+                   key="C05-T1 | %s | token loop bound @%s" % (f.key, _tok_ctx(item)))
+            rep.ob("C05-T1", "sync token has size 0 in %s" % f.key, blk["size0"], detail="the bulk operation records every copy with size %s" % blk["size"],
+                   site=site_of(f, t), key="C05-T1 | %s | token size @%s" % (f.key, _tok_ctx(item)))
+            rep.ob("C05-T1", "exactly one token pushed per iteration in %s" % f.key, blk["one_per_iter"],
+                   detail="bulk loop of %s: %s" % (q.key.rsplit("::", 1)[-1], blk["why"]), site=site_of(f, t),
+                   key="C05-T1 | %s | one token per iteration @%s" % (f.key, _tok_ctx(item)))
     rep.floor("C05-T1", spawn_loops, 2, "worker spawn sites")
     rep.floor("C05-T1", token_loops, 4, "sync-token push sites (pack boundary, sample boundary, sync_and_flush, finalize)")
 
@@ -669,3 +705,40 @@ def _find_cycles(edges):
             cur = nxt
         cycles.append(path)
     return cycles
+
+
+def _bulk_shape(F, q):
+    """a queue method of the shape `for _ in 0..count { heap.push(Wrapper { item: item.clone(), size: S }) }`:
+    returns the names of the item and count parameters and what was found, or None"""
+    from expr import strip_tags
+    ex = Exprs(q)
+    g = cfg_of(q)
+    for L in for_loops(q, ex):
+        pushes = [(bi, t) for bi, t in q.calls() if bi in L["body"] and not t.get("indirect") and re.search(r"BinaryHeap::<T(, A)?>::push$", t["callee"])]
+        if not pushes or not L.get("range"):
+            continue
+        lo, hi = strip_tags(L["range"][0]), strip_tags(L["range"][1])
+        if lo != ("const", 0) or not (isinstance(hi, tuple) and hi[0] == "param"):
+            continue
+        agg = strip_tags(ex.operand(pushes[0][1]["args"][1]))
+        if not (isinstance(agg, tuple) and agg[0] == "agg"):
+            continue
+        flds = dict(agg[2])
+        item = size = None
+        for fname, v in flds.items():
+            if isinstance(v, tuple) and v[0] == "call" and re.search(r"Clone(>)?::clone$", v[1]) and v[2]:
+                ps = [x for x in walk(v[2][0]) if isinstance(x, tuple) and x[0] == "param"]
+                if ps:
+                    item = ps[0][1]
+            elif isinstance(v, tuple) and v[0] == "param":
+                item = item or v[1]
+            if isinstance(v, tuple) and v[0] == "const" and isinstance(v[1], int):
+                size = v[1]
+        if item is None:
+            continue
+        tails = [x for x in L["body"] if L["head"] in g.succ[x]]
+        dom_ok = all(any(g.dominates(p, x) for p, _ in pushes) for x in tails)
+        exits = {(b, s2) for b in L["body"] for s2 in g.succ[b] if s2 not in L["body"] and not q.blocks[s2]["cleanup"]}
+        return {"item": item, "count": hi[1], "size": size, "size0": size == 0, "one_per_iter": len(pushes) == 1 and dom_ok and len(exits) == 1,
+                "why": "%d heap push(es) per iteration, push dominates the back edge: %s, %d exit edge(s)" % (len(pushes), dom_ok, len(exits))}
+    return None
